@@ -111,7 +111,7 @@ prop("C15", "proof",
      "every signature the issuer's check accepts and every sequence of logged draws whose random_bits values are not negative, whatever spok_gen returns passes spok_verify "
      "(nine-response protocol nisp5_complete with its five congruences; per-attribute opening proofs nisp2sec_complete_u; all range proofs boudot_complete; premises: commitment "
      "key over the issuer modulus, invertible bases -- each checked against the implementation's run by the harness); an accepted proof has its range proof on e made for the "
-     "sigma protocol's commitment Ce and passes the five-equation check; the per-attribute opening proofs are specially sound and rigid (nisp2sec_special_soundness, nisp2sec_rigid). PARTIAL: rejection of mismatching statements / edited fields is decided by correspondence "
+     "sigma protocol's commitment Ce and passes the five-equation check; the per-attribute opening proofs are specially sound and rigid (nisp2sec_special_soundness, nisp2sec_rigid) and so is the nine-response protocol (nisp5_special_soundness: the five relations an extractor divides by the challenge difference). PARTIAL: rejection of mismatching statements / edited fields is decided by correspondence "
      "(integer for integer, logged draws) + sweep over ALL U for n <= 3 (thorough 5). Known findings F9 (unused randomness leaves) and F15 (per-attribute sub-proof pairs not tied to the signature; spok_subproofs_untied) reported; F15a (range proof not tied to its opening proof) repaired by 56a5ca8 (spok_loop_ties_range_proofs), F17 (extra trailing list entries ignored) by 386b611 (spok_accepts_lengths).", "DESIGN.md §10 C15", NOTE_CL)
 prop("C16", "proof",
      "Proved: boudot_prove_below_fails / boudot_prove_above_fails -- for a value outside [rmin, rmax] the honest prover returns no proof, whatever the modulus, bases, randomness and draws (tolerance < 2^T); boudot_complete -- every proof the honest prover returns verifies, for every modulus, every pair of invertible bases, every interval, every value and every "
